@@ -46,6 +46,17 @@ Theorem seq_roundtrip_every_history : forall st k p off ops s0 nm inf d,
     observe_seq s' = observe_seq (mkSeq (run_ops (impl_of st) s0 ops) nm inf).
 Proof. exact seq_roundtrip_reachable_lemma. Qed.
 
+(** the decoded sequence is itself a covered state, so the round trip can be iterated (idempotence up to
+    observation): the object read back from a second serialisation is still observed equal to the ORIGINAL *)
+Theorem seq_decoded_state_is_covered : forall st s d s', seq_ok s -> seq_to_dict st s = JObj d ->
+  seq_of_dict st d = Ok s' -> seq_ok s'.
+Proof. exact seq_decoded_ok. Qed.
+
+Theorem seq_roundtrip_twice : forall st s d s1 d1, seq_ok s -> seq_to_dict st s = JObj d -> seq_of_dict st d = Ok s1 ->
+  seq_to_dict st s1 = JObj d1 ->
+  exists s2, seq_of_dict st d1 = Ok s2 /\ observe_seq s2 = observe_seq s /\ seq_ok s2.
+Proof. exact seq_roundtrip_twice_lemma. Qed.
+
 (** the invariant that makes the above work is kept by every operation (whether it succeeds or raises) *)
 Theorem history_invariant : forall i ops s, inv s -> inv (run_ops i s ops).
 Proof. exact inv_run_ops. Qed.
